@@ -86,13 +86,14 @@ pub fn module(r: &mut Rng, allow_unstable: bool) -> (Vec<u8>, AInfo) {
     let etabs: Vec<u32> = tables.iter().enumerate().filter(|(_, t)| t.0).map(|(i, _)| i as u32).collect();
     let mut el = we::ElementSection::new(); let n_el = r.usize(5); let mut n_elems = 0;
     let iglob: Vec<u32> = globals.iter().enumerate().filter(|(_, g)| g.2 && !g.1 && g.0 == 0).map(|(i, _)| i as u32).collect();
+    let iglob64: Vec<u32> = globals.iter().enumerate().filter(|(_, g)| g.2 && !g.1 && g.0 == 1).map(|(i, _)| i as u32).collect();
     let eglob: Vec<u32> = globals.iter().enumerate().filter(|(_, g)| g.2 && !g.1 && g.0 == 6).map(|(i, _)| i as u32).collect();
     for _ in 0..n_el {
         let fl: Vec<u32> = (0..r.usize(3)).map(|_| r.usize(funcs.len()) as u32).collect();
         let fexprs: Vec<we::ConstExpr> = fl.iter().map(|f| if r.chance(1, 4) { we::ConstExpr::ref_null(we::HeapType::Abstract { shared: false, ty: we::AbstractHeapType::Func }) } else { we::ConstExpr::ref_func(*f) }).collect();
         let eexprs: Vec<we::ConstExpr> = (0..r.usize(3)).map(|_| if !eglob.is_empty() && r.chance(1, 2) { we::ConstExpr::global_get(*r.pick(&eglob)) } else { we::ConstExpr::ref_null(we::HeapType::Abstract { shared: false, ty: we::AbstractHeapType::Extern }) }).collect();
         let flag = r.below(9) as u8;
-        let off = |r: &mut Rng, t64: bool| if t64 { we::ConstExpr::i64_const(0) } else if !iglob.is_empty() && r.chance(1, 3) { we::ConstExpr::global_get(*r.pick(&iglob)) } else { we::ConstExpr::i32_const(r.below(2) as i32) };
+        let off = |r: &mut Rng, t64: bool| if t64 { if !iglob64.is_empty() && r.chance(1, 2) { we::ConstExpr::global_get(*r.pick(&iglob64)) } else { we::ConstExpr::i64_const(0) } } else if !iglob.is_empty() && r.chance(1, 3) { we::ConstExpr::global_get(*r.pick(&iglob)) } else { we::ConstExpr::i32_const(r.below(2) as i32) };
         match flag {
             0 | 2 if !ftabs.is_empty() => { let t = if flag == 0 && ftabs.contains(&0) { 0 } else { *r.pick(&ftabs) }; let o = off(r, tables[t as usize].1); el.active(if t == 0 && flag == 0 { None } else { Some(t) }, &o, we::Elements::Functions(&fl)); }
             1 => { el.passive(we::Elements::Functions(&fl)); }
@@ -138,7 +139,7 @@ pub fn module(r: &mut Rng, allow_unstable: bool) -> (Vec<u8>, AInfo) {
         let mut f = we::Function::new(if r.chance(1, 2) { vec![(1 + r.below(2) as u32, we::ValType::I32), (1, we::ValType::F64)] } else { vec![] }); for i in b { f.instruction(i); } f.instruction(&I::End); cs.function(&f); }
     m.section(&cs);
     if n_d > 0 { let mut ds = we::DataSection::new(); for d in &dkinds { let bytes: Vec<u8> = (0..r.usize(4)).map(|_| r.below(256) as u8).collect();
-        match d { None => { ds.passive(bytes); } Some(mi) => { let o = if mems[*mi as usize].0 { we::ConstExpr::i64_const(r.below(3) as i64) } else if !iglob.is_empty() && r.chance(1, 3) { we::ConstExpr::global_get(*r.pick(&iglob)) } else { we::ConstExpr::i32_const(r.below(3) as i32) }; ds.active(*mi, &o, bytes); } } } m.section(&ds); }
+        match d { None => { ds.passive(bytes); } Some(mi) => { let o = if mems[*mi as usize].0 { if !iglob64.is_empty() && r.chance(1, 2) { we::ConstExpr::global_get(*r.pick(&iglob64)) } else { we::ConstExpr::i64_const(r.below(3) as i64) } } else if !iglob.is_empty() && r.chance(1, 3) { we::ConstExpr::global_get(*r.pick(&iglob)) } else { we::ConstExpr::i32_const(r.below(3) as i32) }; ds.active(*mi, &o, bytes); } } } m.section(&ds); }
     custom(&mut m, r, &mut info, &mut customs_left);
     // names
     if r.chance(1, 2) {
